@@ -368,7 +368,7 @@ func visitInstr(fr *frame, instr ssa.Instruction) continuation {
 				fr.env[instr] = x[fr.i.path.forkIndex(idx, len(x), "string index")]
 			}
 		case symString:
-			fr.env[instr] = fr.i.path.selectFrom(x.b, idx, "string index")
+			fr.env[instr] = fr.i.path.selectFrom(strBytes(x), idx, "string index")
 		default:
 			panic(fmt.Sprintf("unexpected x type in Index: %T", x))
 		}
